@@ -282,7 +282,34 @@ func blockEndsInNoReturn(b *ssa.BasicBlock, nr NoReturn) bool {
 // InstrReachable: is instruction `sink` reachable from the start of block `from` when the
 // cut edges are removed? (Position inside blocks: a no-return call before sink in sink's own
 // block makes it unreachable.)
+// InstrReachable: is there a feasible path from the start of `from` to sink that takes none of the cut edges?
+// (block-graph reachability first, then the path exploration of paths.go to discard ways that contradict
+// themselves, e.g. `err` non-nil on the way in and nil at the next test)
 func InstrReachable(from *ssa.BasicBlock, sink ssa.Instruction, cut map[Edge]bool, nr NoReturn) bool {
+	if !instrReachableStatic(from, sink, cut, nr) {
+		return false
+	}
+	hit := false
+	before := ExploreOverflow
+	ExploreOverflow = false
+	oldHook := dynCutHook
+	dynCutHook = nil
+	oldOnly := exploreOnly
+	exploreOnly = canReach(sink.Block())
+	ExploreX(from, nil, nil, nr, cut, nil, func(in ssa.Instruction, st PState) bool {
+		if in == sink {
+			hit = true
+		}
+		return !hit
+	})
+	exploreOnly = oldOnly
+	dynCutHook = oldHook
+	over := ExploreOverflow
+	ExploreOverflow = before || over
+	return hit || over
+}
+
+func instrReachableStatic(from *ssa.BasicBlock, sink ssa.Instruction, cut map[Edge]bool, nr NoReturn) bool {
 	r := ReachBlocks(from, cut, nr)
 	sb := sink.Block()
 	if !r[sb] {
@@ -360,8 +387,33 @@ func stripNot(v ssa.Value) (ssa.Value, bool) {
 
 // PassEdges returns, for every `If` in fn whose condition matches, the edge taken when the
 // check passes.
+// passMatchers remembers, for every edge list PassEdges handed out, the matcher that produced it (keyed by the
+// address of the list's first slot), so that Guarded can apply the same matcher to conditions whose φ-operands
+// are resolved along a concrete path.
+var passMatchers = map[*Edge]CondMatch{}
+
+// dynUsed counts, per edge list, how often Guarded found a justifying branch only after resolving φ-operands
+// along a path (such a branch is not in the static list).
+var dynUsed = map[*Edge]int{}
+
+// nonVacuous: the guard exists (statically, or as a branch recognised along a path).
+func nonVacuous(pass []Edge) bool {
+	if len(pass) > 0 {
+		return true
+	}
+	return cap(pass) > 0 && dynUsed[&pass[:1][0]] > 0
+}
+
+func matcherOf(pass []Edge) CondMatch {
+	if cap(pass) == 0 {
+		return nil
+	}
+	return passMatchers[&pass[:1][0]]
+}
+
 func PassEdges(fn *ssa.Function, m CondMatch) []Edge {
-	var out []Edge
+	out := make([]Edge, 0, 4)
+	defer func() { passMatchers[&out[:1][0]] = m }()
 	for _, b := range fn.Blocks {
 		ifi, ok := lastInstr(b).(*ssa.If)
 		if !ok {
@@ -370,7 +422,16 @@ func PassEdges(fn *ssa.Function, m CondMatch) []Edge {
 		cond, flip := stripNot(ifi.Cond)
 		passWhen, ok := m(cond)
 		if !ok {
-			continue
+			// `case a && b:` and `x := a && b; if x` evaluate the condition as a value: a φ of the constant
+			// false (a failed) and b. Taking the true edge then means b was evaluated and true (dually for ||).
+			if ph, isPhi := cond.(*ssa.Phi); isPhi {
+				if pw, ok2 := phiCond(ph, m); ok2 {
+					passWhen, ok = pw, true
+				}
+			}
+			if !ok {
+				continue
+			}
 		}
 		if flip {
 			passWhen = !passWhen
@@ -382,6 +443,81 @@ func PassEdges(fn *ssa.Function, m CondMatch) []Edge {
 		}
 	}
 	return out
+}
+
+// phiCond: ph is a boolean φ used as a branch condition. If every incoming value other than the constant
+// false is a matched condition that passes when true, the branch passes when ph is true; if every incoming
+// value other than the constant true is a matched condition that passes when false, it passes when ph is false.
+func phiCond(ph *ssa.Phi, m CondMatch) (passWhen bool, ok bool) {
+	return phiCondSeen(ph, m, map[*ssa.Phi]bool{})
+}
+
+func phiCondSeen(ph *ssa.Phi, m CondMatch, seen map[*ssa.Phi]bool) (passWhen bool, ok bool) {
+	if seen[ph] || len(seen) > 6 {
+		return false, false
+	}
+	seen[ph] = true
+	try := func(want bool) bool {
+		n := 0
+		for i, e := range ph.Edges {
+			if bv, isC := ConstBool(e); isC {
+				if bv == want {
+					// the constant makes ph == want: acceptable only if arriving with it is itself a passed
+					// test (the short-circuit operand: `a && b` is false because a is false)
+					if i >= len(ph.Block().Preds) {
+						return false
+					}
+					pb := ph.Block().Preds[i]
+					ifi, isIf := lastInstr(pb).(*ssa.If)
+					if !isIf || len(pb.Succs) != 2 || pb.Succs[0] == pb.Succs[1] {
+						return false
+					}
+					k := 1
+					if pb.Succs[0] == ph.Block() {
+						k = 0
+					}
+					c, flip := stripNot(ifi.Cond)
+					pw, mok := m(c)
+					if !mok {
+						return false
+					}
+					if flip {
+						pw = !pw
+					}
+					if pw != (k == 0) {
+						return false
+					}
+					n++
+				}
+				continue
+			}
+			c, flip := stripNot(e)
+			var pw, mok bool
+			if inner, isPhi := c.(*ssa.Phi); isPhi && inner != ph {
+				pw, mok = phiCondSeen(inner, m, seen)
+			} else {
+				pw, mok = m(c)
+			}
+			if !mok {
+				return false
+			}
+			if flip {
+				pw = !pw
+			}
+			if pw != want {
+				return false
+			}
+			n++
+		}
+		return n > 0
+	}
+	if try(true) {
+		return true, true
+	}
+	if try(false) {
+		return false, true
+	}
+	return false, false
 }
 
 func lastInstr(b *ssa.BasicBlock) ssa.Instruction {
@@ -405,7 +541,7 @@ func EdgeSet(es ...[]Edge) map[Edge]bool {
 // It returns a witness path when not.
 func Guarded(from *ssa.BasicBlock, sink ssa.Instruction, pass []Edge, nr NoReturn) (bool, string) {
 	cut := EdgeSet(pass)
-	if !InstrReachable(from, sink, cut, nr) {
+	if !instrReachableStatic(from, sink, cut, nr) {
 		return true, ""
 	}
 	// The block graph offers a way round the justifying edges; is one of those ways feasible? (branches on the
@@ -413,12 +549,42 @@ func Guarded(from *ssa.BasicBlock, sink ssa.Instruction, pass []Edge, nr NoRetur
 	hit := false
 	before := ExploreOverflow
 	ExploreOverflow = false
+	if m := matcherOf(pass); m != nil {
+		oldHook := dynCutHook
+		dynCutHook = func(b *ssa.BasicBlock, idx int, st PState) bool {
+			ifi, ok := lastInstr(b).(*ssa.If)
+			if !ok {
+				return false
+			}
+			rc := ResolveCond(ifi.Cond, st, 0)
+			if rc == ifi.Cond {
+				return false
+			}
+			cond, flip := stripNot(rc)
+			passWhen, ok := m(cond)
+			if !ok {
+				return false
+			}
+			if flip {
+				passWhen = !passWhen
+			}
+			if (idx == 0) == passWhen {
+				dynUsed[&pass[:1][0]]++
+				return true
+			}
+			return false
+		}
+		defer func() { dynCutHook = oldHook }()
+	}
+	oldOnly := exploreOnly
+	exploreOnly = canReach(sink.Block())
 	ExploreX(from, nil, nil, nr, cut, nil, func(in ssa.Instruction, st PState) bool {
 		if in == sink {
 			hit = true
 		}
 		return !hit
 	})
+	exploreOnly = oldOnly
 	over := ExploreOverflow
 	ExploreOverflow = before || over
 	if !hit && !over {
@@ -690,4 +856,72 @@ func RPO(fn *ssa.Function) []*ssa.BasicBlock {
 		post[i], post[j] = post[j], post[i]
 	}
 	return post
+}
+
+// ImpliedCond is an atomic condition known to have a given outcome once a branch edge is taken.
+type ImpliedCond struct {
+	Cond ssa.Value
+	Val  bool
+}
+
+// ImpliedConds lists what taking the `outcome` edge of a branch on cond says about atomic conditions: negations
+// are peeled off, and a boolean φ produced by `a && b` / `a || b` evaluated as a value (case clauses, flag
+// variables) is looked through: φ(false, b) being true means b was evaluated and true.
+func ImpliedConds(cond ssa.Value, outcome bool) []ImpliedCond {
+	return impliedConds(cond, outcome, 0)
+}
+
+func impliedConds(cond ssa.Value, outcome bool, depth int) []ImpliedCond {
+	c, flip := stripNot(cond)
+	if flip {
+		outcome = !outcome
+	}
+	ph, ok := c.(*ssa.Phi)
+	if !ok || depth > 3 {
+		return []ImpliedCond{{c, outcome}}
+	}
+	var nonConst []ssa.Value
+	var nonConstPred *ssa.BasicBlock
+	var constPreds []*ssa.BasicBlock
+	for i, e := range ph.Edges {
+		if bv, isC := ConstBool(e); isC {
+			if bv == outcome {
+				return []ImpliedCond{{c, outcome}} // the constant alone explains the outcome
+			}
+			if i < len(ph.Block().Preds) {
+				constPreds = append(constPreds, ph.Block().Preds[i])
+			}
+			continue
+		}
+		nonConst = append(nonConst, e)
+		if i < len(ph.Block().Preds) {
+			nonConstPred = ph.Block().Preds[i]
+		}
+	}
+	if len(nonConst) != 1 {
+		return []ImpliedCond{{c, outcome}}
+	}
+	out := []ImpliedCond{{c, outcome}}
+	// the short-circuit tests that were skipped over: `a && b` as a value is φ(false from a's block, b); the
+	// φ being true means control did not come from a's block directly, so a went the other way
+	for _, pb := range constPreds {
+		ifi, ok := lastInstr(pb).(*ssa.If)
+		if !ok || len(pb.Succs) != 2 || nonConstPred == nil {
+			continue
+		}
+		k := -1
+		for si, s := range pb.Succs {
+			if s == ph.Block() {
+				k = si
+			}
+		}
+		if k < 0 || pb.Succs[0] == pb.Succs[1] {
+			continue
+		}
+		other := pb.Succs[1-k]
+		if other == nonConstPred || other.Dominates(nonConstPred) {
+			out = append(out, impliedConds(ifi.Cond, k != 0, depth+1)...)
+		}
+	}
+	return append(out, impliedConds(nonConst[0], outcome, depth+1)...)
 }
